@@ -204,21 +204,24 @@ def probe_cfg(mode, classes, seed, max_vals, max_len=70000):
 def c15(tier, seed):
     run = pl.Run('C15', tier, seed)
     try:
-        if tier == 'quick':
-            classes, max_vals = ['C'], 3
+        if tier == 'smoke':       # a small universe for sensitivity demonstrations
+            classes, max_vals, max_len = ['C'], 2, 256
+            cases = typegen(run, [(1, False, ['E'], None)], 'g')[::6]
+        elif tier == 'quick':
+            classes, max_vals, max_len = ['C'], 3, 70000
             cases = typegen(run, [(1, False, ['E', 'A'], None)], 'g')
         else:
-            classes, max_vals = ['A', 'C', 'P'], 14
+            classes, max_vals, max_len = ['A', 'C', 'P'], 14, 70000
             cases = typegen(run, [(2, False, ['E', 'I', 'A'], None), (1, True, ['E', 'A'], None),
-                                  (5, True, ['E', 'I', 'A'], 'num=800')], 'g')
+                                  (5, True, ['E', 'I', 'A'], 'num=300')], 'g')
         cpath = run.path('cases.ndjson')
         pl.write_cases(cases, cpath)
         empty = run.path('empty.ndjson')
         open(empty, 'w').close()
-        out_a, _ = pl.tlc_generate(run, 'LengthProbe', probe_cfg('abs', classes, seed, max_vals), 'msgs_abs.ndjson',
+        out_a, _ = pl.tlc_generate(run, 'LengthProbe', probe_cfg('abs', classes, seed, max_vals, max_len), 'msgs_abs.ndjson',
                                    workers=TLC_WORKERS, env={'CASES_FILE': empty}, timeout=3000,
                                    what='LengthProbe abstract messages (ProbeOk, Monotone on every prefix state)')
-        out_t, _ = pl.tlc_generate(run, 'LengthProbe', probe_cfg('typed', classes, seed, max_vals), 'msgs_typed.ndjson',
+        out_t, _ = pl.tlc_generate(run, 'LengthProbe', probe_cfg('typed', classes, seed, max_vals, max_len), 'msgs_typed.ndjson',
                                    workers=TLC_WORKERS, env={'CASES_FILE': cpath}, timeout=3000,
                                    what='LengthProbe typed messages (ProbeOk, Monotone on every prefix state)')
         nmsg = merge_lines([out_a, out_t], run.path('msgs.ndjson'))
